@@ -1042,6 +1042,12 @@ impl<'a> Compiler<'a> {
             Pattern::Ident(ref name) => {
                 function.new_stack_var(self, name.name.clone(), pattern_type.clone());
             }
+            Pattern::Record { ref fields, .. } if fields.is_empty() => {
+                // `{}` binds nothing and matches a value whose type may still be polymorphic.
+                // Add a dummy variable for the value itself so the correct number of slots are
+                // removed when exiting
+                function.new_stack_var(self, self.empty_symbol.clone(), self.hole.clone());
+            }
             Pattern::Record { ref fields, .. } => {
                 let typ = resolve::remove_aliases(
                     self,
